@@ -132,7 +132,7 @@ fn ops_header(b: &[u8]) -> Option<(u8, u8, u8, u8, Vec<u8>)> {
 }
 
 /// does the one-pass header say something else than the signature packet it is paired with?
-fn ops_disagrees(ops: &[u8], sig: &[u8]) -> bool {
+pub(super) fn ops_disagrees(ops: &[u8], sig: &[u8]) -> bool {
     let (Some((v, typ, hash, pk, salt)), Some(f)) = (ops_header(ops), sigrec::parse_sig_body(sig)) else {
         return true;
     };
